@@ -732,6 +732,9 @@ func (p *parser) parseInfixExpression() (*astNode, error) {
 				if cnt == -1 {
 					cnt = len(outputStack) - top.l
 				}
+				if cnt < 0 || cnt > len(outputStack) {
+					return p.invalidExprErr(0)
+				}
 
 				children := make([]*astNode, cnt)
 				for i := cnt - 1; i >= 0; i-- {
